@@ -32,9 +32,43 @@ def run(tier, seed):
             for t in tags:
                 res.violation(t, r.get("rust", "untyped-encode"), {"wts": r.get("wts"), "vals": r.get("vals"), "blob": r.get("blob"), "rust": r.get("rust"),
                                                                      "env": {k: v for k, v in (r.get("env") or {}).items() if not k.startswith("p_")}}, "encoder output vs Wire.Parse")
+    # the encoder as an object with a history (Builder.tla): TLC enumerates every operation sequence of MC_Builder
+    # (checking on the specification that its own encoder refines `serialize`), each is replayed on a real IDLBuilder
+    # and a twin, random histories over the whole native corpus are added, Trace_Builder referees
+    bwd = os.path.join(wd, "builder")
+    os.makedirs(bwd, exist_ok=True)
+    cfg = os.path.join(bwd, "MC_Builder.cfg")
+    write_cfg(cfg, constants={"MaxOps": 4 if tier == "quick" else 5}, invariants=["EncoderRefines", "Emit"], properties=["RejectKeeps"])
+    bcases = os.path.join(bwd, "cases.ndjson")
+    st = tlc_generate("MC_Builder", cfg, bcases, bwd, workers=NCPU, timeout=3000)
+    if st["violated"]:
+        raise ToolError("specification invariant violated in MC_Builder: %s\n%s" % (st["violated"], st["tail"][-1500:]))
+    res.add_states(st)
+    res.cov["parts"]["tlc_cases_MC_Builder"] = st["cases"]
+    t3 = os.path.join(bwd, "trace.ndjson")
+    run_harness_parallel("builder", bcases, seed, 3000 if tier == "quick" else 40000, t3, bwd, k=8)
+    v3 = tlc_validate("Trace_Builder", t3, bwd)
+    res.add_states(v3)
+    res.cov["traces_validated_against_impl"] += v3["lines"]
+    res.cov["parts"]["builder_histories"] = v3["lines"]
+    bad3 = {}
+    for ln, det in v3["mismatches"]:
+        bad3.setdefault(ln, []).append(det.strip('"'))
+    recs3 = read_lines(t3, bad3.keys())
+    with open(t3) as f:
+        for i, line in enumerate(f):
+            r = json.loads(line)
+            res.count_case("builder" + json.dumps([r.get("ops")], sort_keys=True), nontrivial=len(r.get("ops", [])) > 2)
+    for ln, tags in bad3.items():
+        r = recs3[ln]
+        for t in tags:
+            if t.startswith("DRIFT:"):
+                res.cov["drift"] += 1
+                continue
+            res.violation(t, "IDLBuilder", {"ops": r.get("ops"), "outs": r.get("outs"), "env": {k: v for k, v in (r.get("env") or {}).items() if not k.startswith("p_")}}, "IDLBuilder history vs Builder.tla (Denotes)")
     res.rule = ("TLC (MC_Decode, EmitKind=enc): every (type tree, inhabitant) encoded by the *real* to_bytes_with_types; harness: %d random recursive environments x values through to_bytes_with_types / to_bytes, "
                 "and the native corpus (Encode!/IDLBuilder::arg) x boundary values; each output parsed by the specification's decoder and compared with declared types (bisimulation) and abstract values; "
-                "encoded twice for determinism. non-trivial = message longer than 8 bytes; distinct by (bytes, types)" % nrand)
+                "encoded twice for determinism; builder histories (MC_Builder: every sequence of typed / untyped / native / ill-typed arguments and serialize calls up to the bound, plus random histories over the native corpus) replayed on IDLBuilder and a twin, every serialize output must denote the arguments accepted so far. non-trivial = message longer than 8 bytes; distinct by (bytes, types)" % nrand)
     res.assumptions = ["Wire.Parse is the independent decoder (validated against test/*.test.did in ./check --setup and by MC_Decode.EncDec)"]
     return res.finish()
 
